@@ -6,6 +6,10 @@ pub(crate) use crate::verif_kani::*;
 
 mod kd1_bitwriter;
 mod kd2_tables;
+mod kd6_stored;
+mod kd7_machine;
+mod kd8_quick;
+mod kd10_entry;
 
 // ---------------------------------------------------------------------------------------------
 // typed deflate state (never through `init()`: DESIGN.md §1 R1/R2).  Every buffer is its own local.
